@@ -76,7 +76,7 @@ MUTANTS = [
     ("reset-cpu-resets-step-mode-alu", L + "machine/raw/mod.rs", "        self.alu_output = AluOutput::default();\n", "", ["C07"]),
     # ---- interrupts (C04)
     ("int-ff-not-cleared", L + "machine/raw/mod.rs", "            trace!(\"Clearing edge interrupt\");\n            machine.pending_edge_interrupt = None;", "            trace!(\"Clearing edge interrupt\");", ["C04"]),
-    ("int-entry-keeps-ief", L + "machine/microprogram_ram_content.rs", "0b0000101010001000100010000100), // 000010100 | DI\n    Word::from_bits_truncate(0b0000101100001001000010100100), // 000010101", "0b0000101010000000000000011000), // 000010100 | DI\n    Word::from_bits_truncate(0b0000101100000000000000011000), // 000010101", ["C04"]),
+    ("int-entry-keeps-ief", L + "machine/microprogram_ram_content.rs", "0b0000101010001000100010000100), // 000010100 | DI\n    Word::from_bits_truncate(0b0000101100001001000010100100), // 000010101", "0b0000101010000000000000011000), // 000010100 | DI\n    Word::from_bits_truncate(0b0000101100000000000000011000), // 000010101", ["C04", "C01"]),
     ("int-reti-skips-fr-pop", L + "machine/microprogram_ram_content.rs", "0b0000011000101010100111000010), // 001001011", "0b0000011000101010100101000010), // 001001011", ["C04", "C01"]),
     ("int-lost-in-memory-wait", L + "machine/raw/mod.rs", "            trace!(\"Skipping clock. Waiting for memory.\");\n            return;", "            trace!(\"Skipping clock. Waiting for memory.\");\n            self.pending_edge_interrupt = None;\n            return;", ["C04"]),
     ("int-taken-with-ief-clear", L + "machine/raw/signals.rs", "        self.interrupt_enable_flag() && self.address_logic_1()", "        self.address_logic_1()", ["C04"]),
@@ -134,6 +134,7 @@ MUTANTS = [
     ("tui-small-terminal-guard-off", B + "tui/interface.rs", "pub const MINIMUM_ALLOWED_WIDTH: u16 = 76;", "pub const MINIMUM_ALLOWED_WIDTH: u16 = 36;", ["C17"]),
     ("tui-invalid-line-silently-ignored", B + "tui/mod.rs", "            self.notification_state.current = self\n                .input_field\n                .last()\n                .map(|text| format!(\"Invalid input:\\n> {}\", text));", "            self.notification_state.current = self\n                .input_field\n                .last()\n                .filter(|t| !t.starts_with(\"set \"))\n                .map(|text| format!(\"Invalid input:\\n> {}\", text));", ["C17"]),
     # ---- cycles (C15)
+    ("cyc-interrupt-acknowledge-costs-a-wait", L + "machine/raw/mod.rs", "            trace!(\"Clearing edge interrupt\");\n            machine.pending_edge_interrupt = None;", "            trace!(\"Clearing edge interrupt\");\n            machine.pending_edge_interrupt = None;\n            machine.pending_wait_for_memory = Some(MemoryWait);", ["C15"]),
     ("cyc-wait-also-for-io", L + "machine/raw/mod.rs", "            if *register_out_a <= 0xEF {\n                trace!(\"Generating artificial wait signal\");\n                machine.pending_wait_for_memory = Some(MemoryWait);\n            }\n        } else {\n            machine.last_bus_read = 0;", "            if *register_out_a <= 0xFB {\n                trace!(\"Generating artificial wait signal\");\n                machine.pending_wait_for_memory = Some(MemoryWait);\n            }\n        } else {\n            machine.last_bus_read = 0;", ["C15"]),
     ("cyc-no-wait-reading-0x80", L + "machine/raw/mod.rs", "            if *register_out_a <= 0xEF {\n                trace!(\"Generating artificial wait signal\");\n                machine.pending_wait_for_memory = Some(MemoryWait);\n            }\n        } else {\n            machine.last_bus_read = 0;", "            if *register_out_a <= 0xEF && *register_out_a != 0x80 {\n                trace!(\"Generating artificial wait signal\");\n                machine.pending_wait_for_memory = Some(MemoryWait);\n            }\n        } else {\n            machine.last_bus_read = 0;", ["C15"]),
 ]
